@@ -174,6 +174,19 @@ theorem descriptor_always_notifies :
       some ["self._checker(value)", "instance.__dict__[self.__name] = value", "if isinstance(instance, Updatable):\n    instance.Need_Update()"] := by
   decide
 
+/-- a read of a parameter hands out a copy of the stored value (the body of `_Parameter.__get__` is exactly this statement): what a
+caller does with the array it was handed cannot change the value behind the notification (seed C11_Q returned the stored object) -/
+theorem reads_hand_out_copies :
+    Gen.C14.notifyForms.lookup "_Parameter.__get__" = some ["return copy.copy(instance.__dict__[self.__name])"] := by
+  decide
+
+/-- `Observable` defines its four methods and nothing else: no `__getstate__` / `__reduce__` / `__deepcopy__` customises what a copy or a
+pickle of an observable carries, so the list of observers - an ordinary attribute - travels with a copied or reloaded model / mesh
+(seed C14_Q dropped it in `__getstate__`: a reloaded simulation was no longer notified) -/
+theorem registrations_travel_with_copies :
+    Gen.C14.notifyForms.lookup "Observable.methods" = some ["_Add_observer", "_Notify", "_Remove_observer", "observers"] := by
+  decide
+
 /-- consequence (value-based model `Sources.V`, notification test `fun _ _ => true`): for every simulation class and every
 sequence of assignments of VALUES and reads, a read serves matrices assembled from the current values; and any test that lets
 one real change through (a tolerance as in seed C11_H, an identity test on an array edited in place as in seed C14_H) serves stale ones -/
